@@ -284,13 +284,13 @@ static int URI_FUNC(AddBaseUriImpl)(URI_TYPE(Uri) * absDest,
 							absDest->query = relSource->query;
 	/* [27/32]			endif; */
 						}
-						URI_FUNC(FixEmptyTrailSegment)(absDest, memory);
 	/* [29/32]		endif; */
 					}
 	/* [30/32]		T.scheme = Base.scheme; */
 					absDest->scheme = absBase->scheme;
 	/* [31/32]	endif; */
 				}
+				URI_FUNC(FixEmptyTrailSegment)(absDest, memory);
 	/* [32/32]	T.fragment = R.fragment; */
 				absDest->fragment = relSource->fragment;
 
